@@ -166,7 +166,9 @@ Rollback(s) ==
   /\ cur' = [cur EXCEPT ![s] = NoTx]
   /\ tv' = [tv EXCEPT ![s] = EmptyG] /\ tn' = [tn EXCEPT ![s] = {}] /\ te' = [te EXCEPT ![s] = {}]
   /\ cwn' = [cwn EXCEPT ![s] = {}] /\ cwe' = [cwe EXCEPT ![s] = {}]
-  /\ UNCHANGED <<E, nextTx, nn, ne, nlab, nprop, esrc, edst, adj, cg>>
+  \* (since the repair of discard_uncommitted_versions) the discarded edges also leave the adjacency lists
+  /\ adj' = adj \ {e \in Edges : ev[e] # NoV /\ ev[e].by = cur[s].id}
+  /\ UNCHANGED <<E, nextTx, nn, ne, nlab, nprop, esrc, edst, cg>>
 \* Session::commit refused with a write conflict: the repaired Session::commit rolls the transaction back
 CommitRefused(s) == Conflict(s) /\ Rollback(s)
 
